@@ -6,6 +6,7 @@ import (
 	"strings"
 	"sync"
 
+	"github.com/jf-tech/omniparser"
 	"github.com/jf-tech/omniparser/idr"
 	"github.com/jf-tech/omniparser/transformctx"
 
@@ -455,7 +456,17 @@ func c12Readers(c *core.Ctx) {
 			c.Inc("reader_inputs_with_malformed_lines")
 		}
 	}
-	s, err := omni.NewSchema(k.Schema(mode))
+	schemaText := k.Schema(mode)
+	if (format == "edi" || format == "csv2" || format == "fixedlength2") && r.Chance(1, 2) {
+		// the hierarchy readers over generated hierarchies (nested records and groups, finite and open bounds, any target)
+		h := genHier(r, format)
+		var tags []string
+		h.derive(r, h.decls, &tags)
+		schemaText, input = h.schema(), c03RenderUnits(h, tags)
+		n = len(tags)
+		c.Inc("reader_inputs_over_generated_hierarchies")
+	}
+	s, err := omni.NewSchema(schemaText)
 	if err != nil {
 		c.Inconclusive("kit schema rejected: " + err.Error())
 		return
@@ -472,7 +483,7 @@ func c12Readers(c *core.Ctx) {
 	var prev []pid
 	got := 0
 	detail := func() map[string]interface{} {
-		return map[string]interface{}{"format": format, "schema": string(k.Schema(mode)), "input": core.Trunc(string(input), 3000)}
+		return map[string]interface{}{"format": format, "schema": string(schemaText), "input": core.Trunc(string(input), 3000)}
 	}
 	for i := 0; i < 2*n+10; i++ {
 		_, err := tr.Read()
@@ -522,6 +533,28 @@ func c12Readers(c *core.Ctx) {
 		sub, _ := auditSub(node)
 		for _, x := range sub {
 			prev = append(prev, pid{x, x.ID})
+		}
+	}
+	// the format reader is asked again after its end (through the ingester, which does not latch): it must keep answering EOF without
+	// giving anything back to the pool a second time - what it gives back shows in the acquisitions that follow
+	if ing := omniparser.VerifIngester(tr); ing != nil && r.Chance(1, 2) {
+		for j := 0; j < r.Range(1, 3); j++ {
+			core.Guard(func() { ing.Read() })
+		}
+		c.Inc("reader_reads_past_the_end")
+		var fresh []*idr.Node
+		seenPtr := map[*idr.Node]bool{}
+		for j := 0; j < 64; j++ {
+			x := idr.CreateNode(idr.ElementNode, "probe")
+			if seenPtr[x] {
+				c.Violate("C12:reader-past-end:node-acquired-twice:"+format, fmt.Sprintf("after the %s reader was read past its end, two acquisitions returned the same node %p", format, x), detail())
+				break
+			}
+			seenPtr[x] = true
+			fresh = append(fresh, x)
+		}
+		for _, x := range fresh {
+			idr.RemoveAndReleaseTree(x)
 		}
 	}
 	if got >= 2 {
